@@ -290,7 +290,15 @@ class Spec:
                     f = v.variants[0][idx[nm]]
                     if isinstance(f, VInt) and any(SYMTAB.syms[s].taint for s, _ in f.form.terms):
                         tainted.append(nm)
-                interp.events.append(('assembly', key, tuple(tainted), st.notes.get('clock_reads', 0), dict(st.notes)))
+                vals = {}
+                for nm in ('year', 'month', 'day', 'hour', 'minute', 'sec', 'usec'):
+                    f = v.variants[0][idx[nm]]
+                    if isinstance(f, VInt):
+                        vals[nm] = (f.form, st.num.rng(f.form))
+                ng = v.variants[0][idx['negative']]
+                vals['negative'] = ng.val if isinstance(ng, VBool) else None
+                interp.events.append(('assembly', key, tuple(tainted), st.notes.get('clock_reads', 0), vals, st))
+                st.notes['assembled'] = st.notes.get('assembled', ()) + ((tuple(tainted), tuple(sorted((k, v[1]) for k, v in vals.items() if k != 'negative'))),)
             body = self.facts.bodies[key]
             return [(st, interp.top(st, body['locals'][0]['ty'], 'assembled'))]
         if key in self.summarised and st.stack:
@@ -324,6 +332,10 @@ class Spec:
         return [(st, self.k1_summary(st, y, m, d))]
 
     def pre_call(self, interp, st, key, args):
+        if key.startswith('format::write_u32') and len(args) == 3:
+            v, w = args[1], args[2]
+            wl, wh = st.num.rng(w.form) if isinstance(w, VInt) else (None, None)
+            st.notes['u32'] = st.notes.get('u32', ()) + ((v.form if isinstance(v, VInt) else None, wl if wl == wh else None),)
         return None
 
     def dom_sym(self, yf: Form, mf: Form):
@@ -398,6 +410,16 @@ class Spec:
                             st.num.set_hi(s, rhi)
                         return VInt(Form.sym(s), ret.ty)
             return None
+        if key.startswith('format::parse_year') and isinstance(ret, VAdt) and ret.single() == 0 and len(args) == 3:
+            # Ok((negative, year, rest)): how much text was consumed and whether the year depends on the clock
+            tup = ret.variants[0][0]
+            src, ml = args[0], args[1]
+            if isinstance(tup, VTuple) and isinstance(src, VSlice) and isinstance(tup.elems[2], VSlice) and isinstance(ml, VInt):
+                consumed = src.len.sub(tup.elems[2].len)
+                yr = tup.elems[1]
+                tainted = isinstance(yr, VInt) and any(SYMTAB.syms[s_].taint for s_, _ in yr.form.terms)
+                interp.events.append(('parse_year', st.num.rng(ml.form), tainted, st.num.rng2(consumed)))
+            return None
         if key == 'date::Date::date_to_iso_year' and isinstance(ret, VInt):
             # K3: the ISO year of a date in 0001-01-01..9999-12-31 is in 1..=9999
             # (0001-01-01 is a Monday, 9999-12-31 a Friday)
@@ -430,17 +452,90 @@ class Spec:
                 return 1      # text code only prints / compares the weekday: no need for the per-weekday case split
         return 10 ** 9
 
+    # ---- concrete one- and two-token pictures (DESIGN 3: C04/C05/C06/C19 token rules)
+    TOKENS = [
+        ('YYYY', 'Year', 4), ('YY', 'Year', 2), ('Y', 'Year', 1), ('YYY', 'Year', 3), ('MM', 'Month', None), ('DD', 'Day', None),
+        ('HH24', 'Hour24', None), ('HH12', 'Hour12', None), ('MI', 'Minute', None), ('SS', 'Second', None),
+        ('FF', 'Fraction', None), ('FF3', 'Fraction', 3), ('FF9', 'Fraction', 9),
+        ('AM', 'AmPm', 'Upper'), ('a.m.', 'AmPm', 'LowerDot'),
+        ('MONTH', 'MonthName', 'Upper'), ('Mon', 'MonthName', 'AbbrCapital'), ('DAY', 'DayName', 'Upper'), ('dy', 'DayName', 'AbbrLower'),
+        ('D', 'DayOfWeek', None), ('DDD', 'DayOfYear', None), ('W', 'WeekOfMonth', None), ('WW', 'WeekOfYear', None),
+        ('-', 'Hyphen', None), (':', 'Colon', None), ('/', 'Slash', None), ('\\', 'Backslash', None), (',', 'Comma', None),
+        ('.', 'Dot', None), (';', 'Semicolon', None), ('T', 'T', None), (' ', 'Blank', 1),
+    ]
+    PAIRS = [('YYYY', 'YYYY'), ('YYYY', 'YY'), ('MM', 'MM'), ('MM', 'MONTH'), ('MONTH', 'Mon'), ('DD', 'DD'), ('HH24', 'HH24'), ('HH24', 'HH12'),
+             ('HH12', 'HH12'), ('MI', 'MI'), ('SS', 'SS'), ('FF', 'FF3'), ('AM', 'AM'), ('AM', 'a.m.'), ('HH24', 'AM'), ('AM', 'HH24'),
+             ('D', 'D'), ('D', 'DAY'), ('DAY', 'dy'), ('DDD', 'DDD'), ('YYYY', 'MM'), ('HH12', 'AM'), ('AM', 'HH12')]
+
+    def mk_field(self, interp, name, payload):
+        fty = self.field_ty
+        t = self.facts.types[fty]
+        v = [x for x in t['variants'] if x['name'] == name]
+        if not v:
+            raise AnalysisIncomplete(f"anchor missing: Field::{name}")
+        v = v[0]
+        fs = []
+        for f in v['fields']:
+            ft = self.facts.types.get(f['ty'], {})
+            if ft.get('k') == 'int':
+                fs.append(VInt(Form.const(int(payload)), f['ty']))
+            elif ft.get('def', '').endswith('option::Option'):
+                if payload is None:
+                    fs.append(VAdt(f['ty'], {0: ()}))
+                else:
+                    inner = [x for x in ft['variants'] if x['idx'] == 1][0]['fields'][0]['ty']
+                    fs.append(VAdt(f['ty'], {1: (VInt(Form.const(int(payload)), inner),)}))
+            elif ft.get('k') == 'adt':
+                pv = [x for x in ft['variants'] if x['name'] == payload]
+                if not pv:
+                    raise AnalysisIncomplete(f"anchor missing: {f['ty']}::{payload}")
+                fs.append(VAdt(f['ty'], {pv[0]['idx']: ()}))
+            else:
+                raise AnalysisIncomplete(f"payload type {f['ty']} of Field::{name}")
+        return VAdt(fty, {v['idx']: tuple(fs)})
+
+    def picture_fields(self, interp, names):
+        cat = {t[0]: t for t in self.TOKENS}
+        return [self.mk_field(interp, cat[n][1], cat[n][2]) for n in names]
+
+    def is_picture_root(self, key):
+        return key.startswith('format::Formatter::parse::<&str, ') or key.startswith('format::Formatter::format::<&mut std::string::String, ')
+
     def root_variants(self, key):
-        """case split of a heavy root into independently analysed variants (covering all cases)"""
+        """case split of a heavy root into independently analysed variants (covering all cases), plus the
+        concrete-picture instances used by the token rules"""
+        out = [None]
         if key in self.summarised:
-            return ['format_exact=false', 'format_exact=true']
-        return [None]
+            out = ['format_exact=false', 'format_exact=true']
+        if self.is_picture_root(key):
+            # (format_exact is never set by any constructor; the picture rules use the default `false`)
+            fx = ['fx0'] if key in self.summarised else ['']
+            for f in fx:
+                out.append(f"pic:{f}|")
+                for t in self.TOKENS:
+                    out.append(f"pic:{f}|{t[0]}")
+                for a, b in self.PAIRS:
+                    out.append(f"pic:{f}|{a}|{b}")
+        return out
 
     def root_args(self, interp, st, key, body, variant=None):
         args = []
         for i in range(1, body['argc'] + 1):
             l = body['locals'][i]
             args.append(interp.top(st, l['ty'], l['name'] or f"arg{i}"))
+        if variant is not None and variant.startswith('pic:'):
+            parts = variant[4:].split('|')
+            fx, names = parts[0], [p for p in parts[1:] if p != '']
+            ref = args[0]
+            fv = interp.load(st, ref.root, ref.path)
+            t = self.facts.types[fv.ty]
+            fidx = {f['name']: i for i, f in enumerate(t['variants'][0]['fields'])}
+            fs = list(fv.variants[0])
+            fs[fidx['fields']] = VOpaque(fs[fidx['fields']].ty, 'stackvec_c', tuple(self.picture_fields(interp, names)))
+            if fx:
+                fs[fidx['format_exact']] = VBool(fx == 'fx1')
+            interp.store(st, ref.root, ref.path, VAdt(fv.ty, {0: tuple(fs)}))
+            return args
         if variant is not None and variant.startswith('format_exact='):
             want = variant.endswith('true')
             ref = args[0]
